@@ -155,7 +155,8 @@ def esc_text(t, raw_gt):
 
 
 def esc_attr(t, q):
-    t = t.replace("&", "&amp;").replace("<", "&lt;")
+    # raw newlines / tabs in an attribute value would be normalised to blanks by any XML parser
+    t = t.replace("&", "&amp;").replace("<", "&lt;").replace("\n", "&#10;").replace("\t", "&#9;").replace("\r", "&#13;")
     return t.replace('"', "&quot;") if q == '"' else t.replace("'", "&apos;")
 
 
